@@ -79,10 +79,19 @@ def seq_update(s, i, x):
 _KEEP = []      # keep update terms alive so that ast ids are not recycled
 
 
+_APP = {}       # ast id -> (base, elem)   for append terms
+
+
 def seq_append(s, x):
     if z3.is_app(s) and s.decl().kind() == z3.Z3_OP_SEQ_EMPTY:
-        return z3.Unit(x)
-    return z3.Concat(s, z3.Unit(x))
+        t = z3.Unit(x)
+        _APP[t.get_id()] = (z3.Empty(s.sort()), x)
+        _KEEP.append(t)
+        return t
+    t = z3.Concat(s, z3.Unit(x))
+    _APP[t.get_id()] = (s, x)
+    _KEEP.append(t)
+    return t
 
 
 def seq_remove_at(s, i):
